@@ -13,15 +13,19 @@ Definition gate_refuses (m : msg) (w : world) : bool :=
   (st w <? ST_NCE)
   || ((st w =? ST_NCE) && negb (match mkind m with KLogon | KLogout => true | _ => false end))
   || ((role w =? ROLE_INITIATOR) && (st w =? ST_LOGON_SENT)
-      && negb (match mkind m with KLogout => true | _ => false end)).
+      && negb (match mkind m with KLogout => true | _ => false end))
+  || (negb (role w =? ROLE_INITIATOR) && (st w =? ST_LOGON_RECV)
+      && negb (match mkind m with KLogon | KLogout => true | _ => false end)).
 
 Lemma send_gate_refused m w : gate_refuses m w = true -> send_gate m w w = mkR (inr XConn) w [].
 Proof.
   unfold gate_refuses, send_gate. intros H.
   destruct (st w <? ST_NCE) eqn:E1; [reflexivity|].
   destruct (st w =? ST_NCE) eqn:E2.
-  - destruct (mkind m); cbn in H; try discriminate; try reflexivity; exfalso; stlia.
-  - cbn in H. rewrite H. reflexivity.
+  - destruct (mkind m); cbn in H; try discriminate; try reflexivity; exfalso;
+      (apply orb_true_iff in H; destruct H as [H|H]; apply andb_true_iff in H; destruct H as [H _];
+       apply andb_true_iff in H; destruct H as [_ H]; stlia).
+  - destruct (_ && _ && _); [reflexivity|]. destruct (_ && _ && _); [reflexivity|]. cbn in H. discriminate.
 Qed.
 
 Lemma send_msg_refused c m w : gate_refuses m w = true -> send_msg c m w = mkR (inr XConn) w [].
@@ -49,8 +53,9 @@ Proof.
   pose proof (encode_not_conn c m w) as He.
   destruct (encode c m w) as [r we ee]. cbn [rv rw re] in *.
   destruct r as [[n wm]|x]; msimp; [|congruence].
-  destruct (wr we); msimp; [|discriminate].
-  destruct (skip_journal m); [discriminate|apply persist_out_not_conn].
+  set (J := (if skip_journal m then ret tt else persist_out n wm) we).
+  assert (HJ : rv J <> inr XConn) by (subst J; destruct (skip_journal m); [discriminate|apply persist_out_not_conn]).
+  destruct (rv J); msimp; [|congruence]. destruct (wr (rw J)); msimp; discriminate.
 Qed.
 
 (* the gates: refuse (nothing changed), pass (nothing changed), or - from NETWORK_CONN_ESTABLISHED with a
@@ -65,7 +70,7 @@ Proof.
   destruct (st w <? ST_NCE); [left; reflexivity|].
   destruct (st w =? ST_NCE) eqn:E.
   - destruct (mkind m); try (left; reflexivity); right; right; (split; [lia|]); (split; [auto|reflexivity]).
-  - destruct (_ && _ && _); [left; reflexivity|right; left; reflexivity].
+  - destruct (_ && _ && _); [left; reflexivity|]. destruct (_ && _ && _); [left; reflexivity|right; left; reflexivity].
 Qed.
 
 Lemma send_tail_conn c m w0 w :
@@ -93,6 +98,15 @@ Qed.
 Lemma send_gate_theorem c m w :
   gate_refuses m w = true -> send_msg c m w = mkR (inr XConn) w [].
 Proof. apply send_msg_refused. Qed.
+
+(* R8c spelled out: between the peer's Logon and its own an acceptor may send Logon / Logout only *)
+Lemma acceptor_send_gate c m w :
+  st w = ST_LOGON_RECV -> role w <> ROLE_INITIATOR -> mkind m <> KLogon -> mkind m <> KLogout ->
+  send_msg c m w = mkR (inr XConn) w [].
+Proof.
+  intros Hs Hr Hk1 Hk2. apply send_msg_refused. unfold gate_refuses. rewrite Hs.
+  destruct (role w =? ROLE_INITIATOR) eqn:E; [lia|]. destruct (mkind m); cbn; congruence.
+Qed.
 
 (* ------------------------------------------------------------------ a disconnected connection is silent *)
 
@@ -134,17 +148,38 @@ Proof.
   unfold dropped. cbn. destruct (ds =? ST_ACTIVE) eqn:E3; [stlia|]. reflexivity.
 Qed.
 
-Lemma first_must_be_logon c m now w :
-  st w = ST_NCE -> validate_integrity c m w = VOk -> mkind m <> KLogon ->
+(* the early gate of _process_message: before the Logon exchange is complete, a message that passed the
+   integrity check and is not part of the exchange drops the connection: no Logout, nothing counted,
+   nothing delivered *)
+Lemma early_dropped c m now w :
+  ST_NCE <= st w -> validate_integrity c m w = VOk -> early_drop m w = true ->
   process_message c m now w = mkR (inl tt) (dropped ST_DISC_BROKEN w) [State ST_DISC_BROKEN; OnDisconnect].
 Proof.
   intros Hs V Hk. unfold process_message. rewrite V. rewrite bind_unfold. unfold try_.
   assert (Hp : part1 c m w = mkR (inl None) (dropped ST_DISC_BROKEN w) [State ST_DISC_BROKEN; OnDisconnect]).
-  { unfold part1. rewrite bind_unfold. cbn [getw rv rw re]. rewrite Hs. cbn [Z.ltb Z.compare ST_NCE Pos.compare Pos.compare_cont].
-    assert (negb match mkind m with KLogon => true | _ => false end = true) as -> by (destruct (mkind m); cbn; congruence).
-    change ((ST_NCE =? ST_NCE) && true) with true. cbn iota. rewrite bind_unfold.
+  { unfold part1. rewrite bind_unfold. cbn [getw rv rw re].
+    destruct (st w <? ST_NCE) eqn:E; [stlia|]. rewrite Hk. rewrite bind_unfold.
     rewrite disconnect_none_alive; [reflexivity| unfold dead; stlia | stlia]. }
   rewrite Hp. reflexivity.
+Qed.
+
+Lemma first_must_be_logon c m now w :
+  st w = ST_NCE -> validate_integrity c m w = VOk -> mkind m <> KLogon ->
+  process_message c m now w = mkR (inl tt) (dropped ST_DISC_BROKEN w) [State ST_DISC_BROKEN; OnDisconnect].
+Proof.
+  intros Hs V Hk. apply early_dropped; [stlia|exact V|]. unfold early_drop. rewrite Hs.
+  destruct (mkind m); cbn; congruence.
+Qed.
+
+(* R8b: while the Logon exchange is in progress (our Logon sent, or the peer's Logon received and ours not
+   yet sent) only Logon and Logout are accepted *)
+Lemma logon_exchange_gate c m now w :
+  st w = ST_LOGON_SENT \/ st w = ST_LOGON_RECV -> validate_integrity c m w = VOk ->
+  mkind m <> KLogon -> mkind m <> KLogout ->
+  process_message c m now w = mkR (inl tt) (dropped ST_DISC_BROKEN w) [State ST_DISC_BROKEN; OnDisconnect].
+Proof.
+  intros Hs V Hk1 Hk2. apply early_dropped; [stlia|exact V|]. unfold early_drop.
+  destruct Hs as [Hs|Hs]; rewrite Hs; destruct (mkind m); cbn; congruence.
 Qed.
 
 (* ------------------------------------------------------------------ integrity failures *)
@@ -230,11 +265,11 @@ Proof.
     unfold send_gate. cbn [st w0 set_maxres set_lastt set_treq role].
     destruct (st w <? ST_NCE) eqn:E6; [lia|].
     destruct (st w =? ST_NCE) eqn:E7.
-    - cbn. rewrite Hw. cbn. unfold persist_out. cbn. rewrite Hi, Hk. cbn. reflexivity.
+    - cbn. unfold persist_out, bind. cbn. rewrite Hi, Hk. cbn. rewrite Hw. cbn. reflexivity.
     - assert (((role w =? ROLE_INITIATOR) && (st w =? ST_LOGON_SENT) && negb true) = false) as Hf
         by (rewrite andb_false_r; reflexivity).
-      cbn [mkind mtype lm kind_of]. cbn. rewrite andb_false_r. cbn. rewrite Hw. cbn.
-      unfold persist_out. cbn. rewrite Hi, Hk. cbn. reflexivity. }
+      cbn [mkind mtype lm kind_of]. cbn. rewrite !andb_false_r. cbn.
+      unfold persist_out, bind. cbn. rewrite Hi, Hk. cbn. rewrite Hw. cbn. reflexivity. }
   rewrite Hsend. cbn [rv rw re].
   unfold logged_out. fold w0.
   destruct (st w =? ST_NCE); cbn; reflexivity.
@@ -336,7 +371,7 @@ Lemma part1_discs c m w :
 Proof.
   unfold part1. rewrite bind_unfold. cbn [getw rv rw re app].
   destruct (st w <? ST_NCE); [left; reflexivity|].
-  destruct (_ && _).
+  destruct (early_drop m w).
   { rewrite bind_unfold.
     destruct (disconnect_discs c ST_DISC_BROKEN None w) as [H|[H [Ha [Hd Hr]]]]; [stlia| |].
     - destruct (rv _); cbn [rv rw re ret]; rewrite ?discs_app, ?H; left; reflexivity.
@@ -585,7 +620,8 @@ Lemma part1_logon_pl c m w :
 Proof.
   intros Hw Hk. unfold part1. rewrite bind_unfold. cbn [getw rv rw re app].
   destruct (st w <? ST_NCE); [right; cbn; eauto|].
-  rewrite Hk. rewrite andb_false_r. rewrite bind_unfold.
+  assert (early_drop m w = false) as -> by (unfold early_drop; rewrite Hk; cbn; rewrite !andb_false_r; reflexivity).
+  rewrite bind_unfold.
   unfold pre_handlers. rewrite Hk. rewrite bind_unfold.
   set (A := (if st w =? ST_NCE then state_set ST_LOGON_RECV ;;; modw (set_role ROLE_ACCEPTOR) else ret tt) w).
   assert (HA : rv A = inl tt /\ prelogon (rw A)).
@@ -598,28 +634,52 @@ Proof.
   - right. rewrite Hx. cbn [rv rw re]. eauto.
 Qed.
 
-(* known-finding classes of C11 *)
-(* D15: a connection in LOGON_INITIAL_SENT treats any inbound message that is not a Logon as if logged on *)
-Definition D15_step (c : cfg) (s : srec) : Prop :=
-  exists m now, s_op s = OIn m now /\ st (s_before s) = ST_LOGON_SENT /\ mkind m <> KLogon
-                /\ validate_integrity c m (s_before s) = VOk.
-(* D25: an acceptor stuck in LOGON_INITIAL_RECV (its Logon handling raised) does the same *)
-Definition D25_step (c : cfg) (s : srec) : Prop :=
-  exists m now, s_op s = OIn m now /\ st (s_before s) = ST_LOGON_RECV /\ mkind m <> KLogon
-                /\ validate_integrity c m (s_before s) = VOk.
+(* the peer's Logout from a pre-Logon state: the connection stays pre-Logon (it is torn down) *)
+Lemma logout_counted_prelogon c m : keeps prelogon (logout_counted c m).
+Proof.
+  intros w Hw. rewrite logout_counted_unfold. destruct (get_int T34 m); cbn [rw].
+  - left. apply process_logout_dead.
+  - exact Hw.
+Qed.
+
+Lemma part1_logout_pl c m w : prelogon w -> mkind m = KLogout -> prelogon (rw (part1 c m w)).
+Proof.
+  intros Hw Hk. unfold part1. rewrite bind_unfold. cbn [getw rv rw re app].
+  destruct (st w <? ST_NCE); [exact Hw|].
+  destruct (early_drop m w).
+  { rewrite bind_unfold. pose proof (disconnect_keeps_prelogon c ST_DISC_BROKEN None w Hw) as H.
+    destruct (disconnect c ST_DISC_BROKEN None w) as [r1 w1 e1]. cbn [rv rw re] in *. destruct r1; exact H. }
+  rewrite bind_unfold.
+  pose proof (pre_handlers_logout_dead c m w w Hk) as Hd.
+  assert (Hp : prelogon (rw (pre_handlers c m w w))).
+  { unfold pre_handlers. rewrite bind_unfold. rewrite Hk.
+    set (A := (if st w =? ST_NCE then state_set ST_LOGON_RECV ;;; modw (set_role ROLE_ACCEPTOR) else ret tt) w).
+    assert (HA : rv A = inl tt /\ prelogon (rw A)).
+    { subst A. destruct (st w =? ST_NCE); cbn; split; auto. right. right. right. reflexivity. }
+    destruct HA as [HA1 HA2]. rewrite HA1. cbn [rv rw re]. apply logout_counted_prelogon. exact HA2. }
+  destruct (pre_handlers c m w w) as [rp wp ep]. cbn [rv rw re] in *.
+  destruct rp as [[]|x]; cbn [rv rw re]; [|exact Hp].
+  rewrite (gap_check_dead c m wp (Hd eq_refl)). exact Hp.
+Qed.
 
 Lemma kind_logon_dec m : mkind m = KLogon \/ mkind m <> KLogon.
+Proof. destruct (mkind m); auto; right; discriminate. Qed.
+
+Lemma kind_logout_dec m : mkind m = KLogout \/ mkind m <> KLogout.
 Proof. destruct (mkind m); auto; right; discriminate. Qed.
 
 Lemma vres_ok_dec v : v = VOk \/ v <> VOk.
 Proof. destruct v; auto; right; discriminate. Qed.
 
+(* one operation from a pre-Logon state (disconnected, NOT_CONNECTED, LOGON_INITIAL_SENT, LOGON_INITIAL_RECV):
+   nothing is delivered, and the connection leaves the pre-Logon states only by reporting on_logon.
+   Since R8b this holds for every operation: the classes D15 and D25 are gone *)
 Lemma step_prelogon c o w :
   let s := mkS w o (step c o w) in
-  prelogon w -> ~ D15_step c s -> ~ D25_step c s ->
+  prelogon w ->
   apps (s_events s) = [] /\ (prelogon (s_after s) \/ logons (s_events s) <> []).
 Proof.
-  intros s Hw H15 H25. subst s. unfold s_events, s_after in *. cbn [s_res s_before s_op] in *.
+  intros s Hw. subst s. unfold s_events, s_after in *. cbn [s_res s_before s_op] in *.
   destruct o as [m now|m|now|ds lm]; cbn [step].
   2:{ split; [apply apps_nil, send_msg_allev; cbn; auto|]. left. apply send_msg_keeps_prelogon. exact Hw. }
   2:{ split; [apply apps_nil, send_test_req_allev; cbn; auto|]. left.
@@ -632,28 +692,27 @@ Proof.
       - split; [apply apps_nil, disconnect_allev; cbn; auto|]. left. apply disconnect_keeps_prelogon. exact Hw.
       - split; [apply apps_nil, disconnect_allev; cbn; auto|]. left. apply disconnect_keeps_prelogon. exact Hw.
       - cbn. auto. }
-  destruct Hw as [Hd|[H6|H78]].
-  - destruct (process_message_dead c m now w Hd) as [E1 E2]. rewrite E1, E2. split; auto. left. left. exact Hd.
-  - destruct (kind_logon_dec m) as [Hk|Hk].
-    2:{ rewrite (first_must_be_logon c m now w H6 V Hk). cbn. split; auto. left. left. cbn. stlia. }
-    split.
+  destruct Hw as [Hd|Hpre].
+  { destruct (process_message_dead c m now w Hd) as [E1 E2]. rewrite E1, E2. split; auto. left. left. exact Hd. }
+  assert (Hpl : prelogon w) by (right; exact Hpre).
+  destruct (kind_logon_dec m) as [Hk|Hk].
+  { split.
     + destruct (pm_apps _ _ _ _ (process_message_spec c m now w)) as [H|[_ [Hk' _]]]; [exact H|congruence].
     + unfold process_message. rewrite V. rewrite bind_unfold. unfold try_.
-      assert (Hpl : prelogon w) by (right; left; exact H6).
       destruct (part1_logon_pl c m w Hpl Hk) as [H|[H [x Hx]]].
       * right. destruct (rv (part1 c m w)); cbn [rv rw re]; apply logons_nonnil_app_l; exact H.
-      * left. rewrite Hx. cbn. exact H.
-  - assert (Hk : mkind m = KLogon).
-    { destruct (kind_logon_dec m) as [Hk|Hk]; [exact Hk|]. exfalso. destruct H78 as [H7|H8].
-      - apply H15. exists m, now. cbn. auto.
-      - apply H25. exists m, now. cbn. auto. }
-    split.
-    + destruct (pm_apps _ _ _ _ (process_message_spec c m now w)) as [H|[_ [Hk' _]]]; [exact H|congruence].
-    + unfold process_message. rewrite V. rewrite bind_unfold. unfold try_.
-      assert (Hpl : prelogon w) by (right; right; exact H78).
-      destruct (part1_logon_pl c m w Hpl Hk) as [H|[H [x Hx]]].
-      * right. destruct (rv (part1 c m w)); cbn [rv rw re]; apply logons_nonnil_app_l; exact H.
-      * left. rewrite Hx. cbn. exact H.
+      * left. rewrite Hx. cbn. exact H. }
+  destruct Hpre as [H6|H78].
+  { rewrite (first_must_be_logon c m now w H6 V Hk). cbn. split; auto. left. left. cbn. stlia. }
+  destruct (kind_logout_dec m) as [Hl|Hl].
+  2:{ rewrite (logon_exchange_gate c m now w H78 V Hk Hl). cbn. split; auto. left. left. cbn. stlia. }
+  split.
+  + destruct (pm_apps _ _ _ _ (process_message_spec c m now w)) as [H|[_ [Hk' _]]]; [exact H|congruence].
+  + left. unfold process_message. rewrite V. rewrite bind_unfold. unfold try_.
+    destruct (p1_logout _ _ _ _ (part1_spec c m w) Hl) as [Hnb _].
+    pose proof (part1_logout_pl c m w Hpl Hl) as Hp.
+    destruct (part1 c m w) as [r1 w1 e1]. cbn [rv rw re] in *.
+    destruct r1 as [[b|]|x]; cbn [rv rw re after_part1 ret]; [exfalso; apply (Hnb b); reflexivity|exact Hp|exact Hp].
 Qed.
 
 Lemma apps_nil_not_in l m : apps l = [] -> ~ In (App m) l.
@@ -662,24 +721,36 @@ Proof.
   discriminate.
 Qed.
 
-(* every App event of the history is preceded by an OnLogon event *)
+(* every App event of the history is preceded by an OnLogon event - over ALL histories *)
 Lemma run_no_app_before_logon c h : forall w,
   prelogon w ->
-  Forall (fun s => ~ D15_step c s /\ ~ D25_step c s) (run c w h) ->
   forall pre m post, trace (run c w h) = pre ++ App m :: post -> logons pre <> [].
 Proof.
-  induction h as [|o h IH]; intros w Hw Hc pre m post Ht.
+  induction h as [|o h IH]; intros w Hw pre m post Ht.
   { cbn in Ht. destruct pre; discriminate. }
-  rewrite trace_cons in Ht. cbn [run] in Hc. inversion Hc as [|s l [H15 H25] Hrest]; subst.
-  destruct (step_prelogon c o w Hw H15 H25) as [Ha Hp]. unfold s_events, s_after in *. cbn [s_res] in *.
+  rewrite trace_cons in Ht.
+  destruct (step_prelogon c o w Hw) as [Ha Hp]. unfold s_events, s_after in *. cbn [s_res] in *.
   apply app_eq_app in Ht. destruct Ht as [l [[E1 E2]|[E1 E2]]].
   - destruct l as [|e l'].
     + rewrite app_nil_r in E1. cbn in E2. subst pre.
       destruct Hp as [Hp|Hp]; [|exact Hp].
-      exfalso. apply (IH _ Hp Hrest [] m post); [rewrite <- E2; reflexivity|reflexivity].
+      exfalso. apply (IH _ Hp [] m post); [rewrite <- E2; reflexivity|reflexivity].
     + exfalso. inversion E2; subst. apply (apps_nil_not_in _ m Ha). rewrite E1. apply in_or_app. right. left. reflexivity.
   - subst pre. destruct Hp as [Hp|Hp]; [|apply logons_nonnil_app_l; exact Hp].
-    apply logons_nonnil_app_r. eapply (IH _ Hp Hrest l m post). exact E2.
+    apply logons_nonnil_app_r. eapply (IH _ Hp l m post). exact E2.
+Qed.
+
+(* a connection that started before the Logon exchange and is now in an established state
+   (ACTIVE, RESENDREQ_HANDLING, RESENDREQ_AWAITING) has reported on_logon *)
+Lemma run_established_needs_logon c h : forall w,
+  prelogon w -> ~ prelogon (final c w h) -> logons (trace (run c w h)) <> [].
+Proof.
+  induction h as [|o h IH]; intros w Hw Hf.
+  { exfalso. apply Hf. exact Hw. }
+  rewrite trace_cons.
+  destruct (step_prelogon c o w Hw) as [_ Hp]. unfold s_events, s_after in *. cbn [s_res] in *.
+  destruct Hp as [Hp|Hp]; [|apply logons_nonnil_app_l; exact Hp].
+  apply logons_nonnil_app_r. apply IH; [exact Hp|exact Hf].
 Qed.
 
 (* ------------------------------------------------------------------ the states the library ever sets *)
@@ -736,7 +807,7 @@ Proof.
   revert w Hw. change (keeps okstate (r1 <- try_ (part1 c m) ;; after_part1 c m now r1)).
   keeps_step.
   - apply keeps_try. unfold part1. keeps_step; [keeps_tac|]. destruct (st a <? ST_NCE); [keeps_tac|].
-    destruct (_ && _); [keeps_step; [apply Hd|keeps_tac]|].
+    destruct (early_drop m a); [keeps_step; [apply Hd|keeps_tac]|].
     keeps_step.
     + unfold pre_handlers. keeps_step; [kst|].
       destruct (mkind m); try solve [keeps_tac].
@@ -843,7 +914,7 @@ Proof.
   revert w Hw. change (keeps nh (r1 <- try_ (part1 c m) ;; after_part1 c m now r1)).
   keeps_step.
   - apply keeps_try. unfold part1. keeps_step; [keeps_tac|]. destruct (st a <? ST_NCE); [keeps_tac|].
-    destruct (_ && _); [keeps_step; [apply disconnect_nh|keeps_tac]|].
+    destruct (early_drop m a); [keeps_step; [apply disconnect_nh|keeps_tac]|].
     keeps_step.
     + unfold pre_handlers. keeps_step; [knh|].
       destruct (mkind m); try solve [keeps_tac].
@@ -885,72 +956,39 @@ Proof. vm_compute. reflexivity. Qed.
 
 (* ------------------------------------------------------------------ boolean class predicates, witnesses *)
 
-Definition D15_stepb (c : cfg) (s : srec) : bool :=
-  match s_op s with
-  | OIn m _ => (st (s_before s) =? ST_LOGON_SENT) && negb (kind_eqb (mkind m) KLogon)
-               && is_vok (validate_integrity c m (s_before s))
-  | _ => false
-  end.
-Definition D25_stepb (c : cfg) (s : srec) : bool :=
-  match s_op s with
-  | OIn m _ => (st (s_before s) =? ST_LOGON_RECV) && negb (kind_eqb (mkind m) KLogon)
-               && is_vok (validate_integrity c m (s_before s))
-  | _ => false
-  end.
-
-Lemma kind_eqb_neq a b : a <> b -> kind_eqb a b = false.
-Proof. destruct a, b; cbn; congruence. Qed.
-
-Lemma D15_stepb_complete c s : D15_step c s -> D15_stepb c s = true.
-Proof.
-  intros [m [now [Ho [Hs [Hk V]]]]]. unfold D15_stepb. rewrite Ho, Hs, V, (kind_eqb_neq _ _ Hk). reflexivity.
-Qed.
-Lemma D25_stepb_complete c s : D25_step c s -> D25_stepb c s = true.
-Proof.
-  intros [m [now [Ho [Hs [Hk V]]]]]. unfold D25_stepb. rewrite Ho, Hs, V, (kind_eqb_neq _ _ Hk). reflexivity.
-Qed.
-
-Lemma c11_classes_forallb c l :
-  forallb (fun s => negb (D15_stepb c s) && negb (D25_stepb c s)) l = true ->
-  Forall (fun s => ~ D15_step c s /\ ~ D25_step c s) l.
-Proof.
-  intros H. rewrite forallb_forall in H. apply Forall_forall. intros s Hs. specialize (H s Hs).
-  apply andb_true_iff in H. destruct H as [H1 H2]. split; intros Hd.
-  - apply (D15_stepb_complete c) in Hd. rewrite Hd in H1. discriminate.
-  - apply (D25_stepb_complete c) in Hd. rewrite Hd in H2. discriminate.
-Qed.
-
 Definition i_resend (seq b e : Z) := OIn (inbound (S "2") seq [(T7, z_to_dec b); (T16, z_to_dec e)]) 0.
 Definition i_logon_no98 (seq : Z) := OIn (inbound (S "A") seq [(T108, S "30")]) 0.
 Definition i_app_garbled := OIn (mkMsg (S "D")
     [(T8, S "FIX.4.4"); (T9, S "100"); (T35, S "D"); (T49, S "SRV"); (T56, S "CLI");
      (T34, S "abc"); (T52, S "20230101-10:00:00.000"); (T10, S "000")]) 0.
 
-(* D15: the initiator has sent its Logon and waits for the reply; an application message arrives *)
-Lemma initiator_app_before_logon_refuted :
-  exists c w h m, prelogon w /\ apps (trace (run c w h)) = [m] /\ logons (trace (run c w h)) = [].
-Proof.
-  exists cfg0, w_initiator, [o_logon; i_app 1]. eexists. split; [right; left; reflexivity|].
-  split; vm_compute; reflexivity.
-Qed.
+(* former D15 witnesses (repaired by R8b): the initiator has sent its Logon and waits for the reply;
+   an application message arrives: dropped, nothing delivered, no Logout, next_num_in unchanged *)
+Lemma initiator_app_before_logon_dropped :
+  let t := trace (run cfg0 w_initiator [o_logon; i_app 1]) in
+  let w := final cfg0 w_initiator [o_logon; i_app 1] in
+  apps t = [] /\ logons t = [] /\ length (discs t) = 1%nat /\ map mtype (wires t) = [MT_LOGON]
+  /\ st w = ST_DISC_BROKEN /\ nin w = 1.
+Proof. cbn zeta. repeat split; vm_compute; reflexivity. Qed.
 
-(* D15: ... or a ResendRequest: the connection becomes ACTIVE without any Logon from the peer *)
-Lemma initiator_active_without_logon_refuted :
-  exists c w h, prelogon w /\ st (final c w h) = ST_ACTIVE /\ logons (trace (run c w h)) = [].
-Proof.
-  exists cfg0, w_initiator, [o_logon; i_resend 1 1 0]. split; [right; left; reflexivity|].
-  split; vm_compute; reflexivity.
-Qed.
+(* ... or a ResendRequest: it is not served and the connection does not become ACTIVE *)
+Lemma initiator_resend_before_logon_dropped :
+  let t := trace (run cfg0 w_initiator [o_logon; i_resend 1 1 0]) in
+  let w := final cfg0 w_initiator [o_logon; i_resend 1 1 0] in
+  logons t = [] /\ map mtype (wires t) = [MT_LOGON] /\ st w = ST_DISC_BROKEN /\ nin w = 1.
+Proof. cbn zeta. repeat split; vm_compute; reflexivity. Qed.
 
-(* D25 (new): a Logon without EncryptMethod leaves the acceptor in LOGON_INITIAL_RECV (no reply, no on_logon);
-   the next application message is delivered *)
-Lemma acceptor_stuck_logon_refuted :
-  exists c w h m, prelogon w /\ apps (trace (run c w h)) = [m] /\ logons (trace (run c w h)) = []
-                  /\ wires (trace (run c w h)) = [].
-Proof.
-  exists cfg0, w_acceptor, [i_logon_no98 1; i_app 1]. eexists. split; [right; left; reflexivity|].
-  split; [vm_compute; reflexivity|]. split; vm_compute; reflexivity.
-Qed.
+(* former D25 witness (repaired by R8b, R8c): a Logon without EncryptMethod leaves the acceptor in
+   LOGON_INITIAL_RECV (no reply, no on_logon); the next application message is dropped, and until then
+   the application cannot send anything but Logon/Logout *)
+Lemma acceptor_stuck_logon_dropped :
+  let w1 := final cfg0 w_acceptor [i_logon_no98 1] in
+  let t := trace (run cfg0 w_acceptor [i_logon_no98 1; i_app 1]) in
+  st w1 = ST_LOGON_RECV
+  /\ step cfg0 (OSend (mkMsg (S "D") [(S "11", S "X")])) w1 = mkR (inr XConn) w1 []
+  /\ apps t = [] /\ logons t = [] /\ wires t = [] /\ length (discs t) = 1%nat
+  /\ st (final cfg0 w_acceptor [i_logon_no98 1; i_app 1]) = ST_DISC_BROKEN.
+Proof. cbn zeta. repeat split; vm_compute; reflexivity. Qed.
 
 (* D27 is repaired in the code: a MsgSeqNum that int() rejects is an integrity failure like a missing one *)
 Lemma garbled_seqnum_rejected c m w v :
@@ -974,16 +1012,15 @@ Lemma garbled_seqnum_logout :
   /\ map (fun wm => (mtype wm, get T58 (mtags wm))) (wires (re r)) = [(MT_LOGOUT, Some R_GARBLED)].
 Proof. cbn zeta. repeat split; vm_compute; reflexivity. Qed.
 
-(* non-vacuity: a normal acceptor session is inside the scope of the partial theorem *)
+(* non-vacuity: a normal acceptor session delivers after its Logon and ends with one disconnect *)
 Definition h_session := [i_logon 1; i_app 2; i_app 3; OSend (mkMsg (S "D") [(S "11", S "X")]); OIn (inbound (S "5") 4 []) 0; i_app 5].
 Lemma session_in_scope :
   prelogon w_acceptor
-  /\ Forall (fun s => ~ D15_step cfg0 s /\ ~ D25_step cfg0 s) (run cfg0 w_acceptor h_session)
   /\ length (apps (trace (run cfg0 w_acceptor h_session))) = 2%nat
   /\ length (discs (trace (run cfg0 w_acceptor h_session))) = 1%nat
   /\ okstate w_acceptor.
 Proof.
-  split; [right; left; reflexivity|]. split; [apply c11_classes_forallb; vm_compute; reflexivity|].
+  split; [right; left; reflexivity|].
   split; [vm_compute; reflexivity|]. split; [vm_compute; reflexivity|]. unfold okstate, okst. cbn. tauto.
 Qed.
 
